@@ -134,7 +134,9 @@ class Fn(object):
         g.defs_of_var('')
         amap = {}
         for p, a in zip(g.params, args):
-            if len(g._defs.get(p['ref'], [])) == 0:
+            pt = (g.types[p['t']] or '').strip()
+            const_ref = pt.endswith('&') and not pt.endswith('&&') and pt.startswith('const ') and '*' not in pt
+            if len(g._defs.get(p['ref'], [])) == 0 or const_ref:       # `T const &`: taking its address / passing it on cannot modify it
                 amap[p['ref']] = a
         return g, amap
 
@@ -963,7 +965,8 @@ class Fn(object):
 
     def gate_edges(self, pred):
         """edges (from,to,label,tag) whose implied facts satisfy pred(atom, polarity)"""
-        out = []
+        out = GateList()
+        out.preds = [pred]
         for B in self.blocks.values():
             L = self._confluence(B.id)
             tags = [None] if L is None else [None, (L, 'T'), (L, 'F'), (L, 'R')]
@@ -992,11 +995,167 @@ class Fn(object):
         p = self.point_of(target_node)
         if p is None:
             raise AnalysisBroken('node %d of %s has no CFG position' % (target_node, self.id))
+        preds = getattr(gates, 'preds', None)
         gates = list(gates)
         if any(len(g) == 5 and g[0] == 'ret' and g[1] == target_node for g in gates):
             return True
         reach = self.reachable_blocks(cut_edges=gates)
+        if p[0] in reach and preds:
+            # second chance: follow re-assigned boolean flags along each path (which definition reaches a test of the flag
+            # and what the test says about it) - `bool ok = A; if(ok && x) ok = B; if(!ok) return; <target>`
+            reach = self.reachable_blocks_flags(gates, preds)
         return p[0] not in reach
+
+    def _tracked_flags(self):
+        if not hasattr(self, '_tflags'):
+            self._tflags = {}
+            self.defs_of_var('')
+            for ref, ds in self._defs.items():
+                if not ref.startswith('v:') or len(ds) < 2 or any(v is None for (_, v) in ds):
+                    continue
+                decl = [d for (d, _) in ds if self.nodes[d]['k'] == 'DeclStmt']
+                if len(decl) != 1:
+                    continue
+                t = None
+                for d in self.nodes[decl[0]]['decls']:
+                    if d['ref'] == ref:
+                        t = (self.types[d['t']] or '').replace('const ', '').strip()
+                if t != 'bool':
+                    continue
+                self._tflags[ref] = dict((d, v) for (d, v) in ds)
+        return self._tflags
+
+    def _flag_test(self, cond):
+        """(flag ref, negated) if the condition is a tracked flag, possibly under `!`"""
+        i, neg = self.strip(cond), False
+        while self.nodes[i]['k'] == 'UnaryOperator' and self.nodes[i].get('op') == '!':
+            i, neg = self.strip(self.nodes[i]['ch'][0]), not neg
+        n = self.nodes[i]
+        if n['k'] == 'DeclRefExpr' and n.get('ref') in self._tracked_flags():
+            return n['ref'], neg
+        return None
+
+    def reachable_blocks_flags(self, gates, preds, start=None):
+        """like reachable_blocks(cut_edges=gates), with the state extended by, for every re-assigned bool local, the
+        definition that reaches and the value a test has established.  An edge that tests such a flag is infeasible when it
+        contradicts the known value, and is a gate when the reaching definition's expression, taken with the tested value,
+        implies a fact one of `preds` accepts."""
+        flags = self._tracked_flags()
+        cut2, cut3, cut4 = set(), set(), set()
+        for e in gates:
+            if len(e) == 2:
+                cut2.add(tuple(e))
+            elif len(e) == 3:
+                cut3.add(tuple(e))
+            elif len(e) == 4:
+                cut4.add(tuple(e))
+        defat = {}
+        for ref, ds in flags.items():
+            for d in ds:
+                defat[d] = ref
+        def through(b, fl):
+            B = self.blocks[b]
+            fl = dict(fl)
+            for e in B.elems:
+                j = e.get('n')
+                if j in defat:
+                    v = flags[defat[j]][j]
+                    cv = self.const_value(v)
+                    fl[defat[j]] = (j, None if cv is None else bool(cv))
+            return fl
+        # equalities between unmodified locals / parameters / constants remembered along the path: `for(..; e != end; ..)` left
+        # through its condition, then `if(e == end)`: the false edge of the second test is infeasible
+        if not hasattr(self, '_wrblk'):
+            self._wrblk = collections.defaultdict(set)
+            self.defs_of_var('')
+            for ref, ds in self._defs.items():
+                for (d, _) in ds:
+                    pd = self.point_of(d)
+                    if pd is not None:
+                        self._wrblk[pd[0]].add(ref)
+
+        def eqkey(atom):
+            n_ = self.nodes[atom]
+            if n_['k'] != 'BinaryOperator' or n_.get('op') not in ('==', '!=') or len(n_['ch']) != 2:
+                return None
+            ks = []
+            for c_ in n_['ch']:
+                m_ = self.nodes[self.strip(c_)]
+                if m_['k'] == 'DeclRefExpr' and (m_.get('ref') or '').startswith(('v:', 'p:')):
+                    ks.append(m_['ref'])
+                elif self.const_value(c_) is not None:
+                    ks.append('#%s' % self.const_value(c_))
+                else:
+                    return None
+            if all(k_.startswith('#') for k_ in ks):
+                return None
+            return (tuple(sorted(ks)), n_['op'] == '==')
+        if start is None:
+            start = self.entry
+        seen, seenb = set(), set()
+        stack = [(start, None, frozenset(), frozenset())]
+        budget = 40000
+        while stack and budget > 0:
+            budget -= 1
+            st = stack.pop()
+            if st in seen:
+                continue
+            seen.add(st)
+            b, tag, fl0, mem0 = st
+            seenb.add(b)
+            fl = through(b, dict(fl0))
+            wr = self._wrblk.get(b, ())
+            mem = dict((k_, v_) for (k_, v_) in mem0 if not any(r_ in wr for r_ in k_))
+            lc = self.leaf_cond(self.blocks[b])
+            ft = self._flag_test(lc[0]) if (lc is not None and not lc[1]) else None
+            for (s2, lab, stag) in self.state_succ(b, tag):
+                if (b, s2) in cut2 or (b, s2, lab) in cut3 or (b, s2, lab, tag) in cut4:
+                    continue
+                mem2 = mem
+                if lc is not None and not lc[1] and lab in (True, False):
+                    bad = False
+                    try:
+                        efacts = self.edge_facts(b, lab, tag)
+                    except Exception:
+                        efacts = []
+                    for (atom, pol) in efacts:
+                        ek = eqkey(atom)
+                        if ek is None:
+                            continue
+                        val = (pol == ek[1])
+                        if ek[0] in mem2 and mem2[ek[0]] != val:
+                            bad = True
+                            break
+                        if ek[0] not in mem2:
+                            mem2 = dict(mem2)
+                            mem2[ek[0]] = val
+                    if bad:
+                        continue
+                fl2 = fl
+                if ft is not None and lab in (True, False) and ft[0] in fl:
+                    ref, neg = ft
+                    val = (lab != neg)
+                    d, known = fl[ref]
+                    if known is not None and known != val:
+                        continue                       # contradicts what an earlier test / a constant assignment established
+                    expr = flags[ref][d]
+                    gate = False
+                    if self.const_value(expr) is None:
+                        try:
+                            facts = self.cond_facts(expr, val)
+                        except Exception:
+                            facts = []
+                        gate = any(self.fact_satisfies(pr, atom, pol) for pr in preds for (atom, pol) in facts)
+                    if gate:
+                        continue
+                    fl2 = dict(fl)
+                    fl2[ref] = (d, val)
+                nxt = (s2, stag, frozenset(fl2.items()), frozenset(mem2.items()))
+                if nxt not in seen:
+                    stack.append(nxt)
+        if budget <= 0:
+            return self.reachable_blocks(start, cut_edges=gates)
+        return seenb
 
     def abnormal_blocks(self):
         """blocks that end by throwing / calling a noreturn function (their edge to EXIT is not a normal return)"""
@@ -1015,6 +1174,22 @@ class Fn(object):
     def ret_value(self, r):
         n = self.nodes[r]
         return n['ch'][0] if n['ch'] else None
+
+
+class GateList(list):
+    """gate edges together with the predicates that selected them (kept through concatenation), so that only_through can
+    re-evaluate flag tests path-sensitively"""
+    preds = None
+
+    def __add__(self, other):
+        r = GateList(list.__add__(self, list(other)))
+        r.preds = (self.preds or []) + (getattr(other, 'preds', None) or [])
+        return r
+
+    def __radd__(self, other):
+        r = GateList(list(other) + list(self))
+        r.preds = (getattr(other, 'preds', None) or []) + (self.preds or [])
+        return r
 
 
 class Program(object):
